@@ -188,9 +188,29 @@ def r20_4(ctx: Ctx) -> RuleResult:
                 for s in gi.node.body[: gi.node.body.index(tries[0])] for n in ast.walk(s)
             )
             first_ok = not reassigned
+    # no other value may be returned before the exact key has been tried: every other
+    # `return` sits in an `except` handler of that very `try`
+    if first_ok:
+        from sa.flow import parent_map
+
+        parents = parent_map(gi.node)
+        exact = tries[0].body[0]
+        for r in [n for n in ast.walk(gi.node) if isinstance(n, ast.Return) and n is not exact]:
+            cur = r
+            inside = False
+            while cur is not None:
+                par = parents.get(id(cur))
+                if isinstance(cur, ast.ExceptHandler) and par is tries[0]:
+                    inside = True
+                cur = par
+            if not inside:
+                first_ok = False
+                rr.bad(gi, r, f"`{short(r)}` can be returned before the exact key has been looked up: a member "
+                       "literally named like the non-standard form (`#a`, `~a`) is shadowed by its sibling",
+                       construct=short(r))
     if first_ok:
         rr.ok(gi.loc(), "_getitem tries getitem(obj, key) with the unmodified key first")
-    else:
+    elif not rr.findings:
         rr.bad(gi, gi.node, "_getitem must try the exact key before any `#`/`~` fallback (a member literally "
                "named `#a` or `~a` would otherwise be unreachable)", construct="exact key first")
     return rr
@@ -202,4 +222,12 @@ def r20_5(ctx: Ctx) -> RuleResult:
     return r5_3(ctx, "R20.5", only=("test", "replace", "remove"), floor=2)
 
 
-RULES = [r20_1, r20_2, r20_3, r20_4, r20_5]
+def r20_6(ctx: Ctx) -> RuleResult:
+    """The pointer's string form, parsed again, addresses the same member: member
+    names that merely look like indices stay member names (= R4.2)."""
+    from .c04 import r4_2
+
+    return r4_2(ctx, "R20.6")
+
+
+RULES = [r20_1, r20_2, r20_3, r20_4, r20_5, r20_6]
